@@ -145,8 +145,11 @@ def build_class(case, sm_mod, log, clock, scripts_abs):
     n = case["n"]
     base = AutonomousStateMachine if case["auto"] else StateMachine
 
-    def make_fn(i):
+    def make_fn(i, decoy=None):
         st = case["states"][str(i)]
+        if decoy is not None:
+            st = dict(st, **decoy)
+            st["kind"] = "timed" if st["timed"] else "state"
         ps = st["params"]
         src = "def %s(self%s):\n    self._sm_call(%d, dict(%s))\n" % (
             sname(i), "".join(", " + p for p in ps), i, ", ".join("%s=%s" % (p, p) for p in ps))
@@ -171,8 +174,8 @@ def build_class(case, sm_mod, log, clock, scripts_abs):
             rec[3] = kw["state_tm"]
         if "initial_call" in kw:
             rec[4] = kw["initial_call"]
-        log.append(rec)
-        acts = case["scripts"][k] if k < len(case["scripts"]) else []
+        self._log.append(rec)
+        acts = case["scripts"][k] if (k < len(case["scripts"]) and not self._quiet) else []
         out = []
         self._depth += 1
         for a in acts:
@@ -185,27 +188,33 @@ def build_class(case, sm_mod, log, clock, scripts_abs):
             else:
                 clock.t += a[2]
                 out.append(["now", a[1], clock.t])
-                log.append(["now"])
+                self._log.append(["now"])
                 self.next_state_now(sname(a[1]))
         self._depth -= 1
-        scripts_abs[k] = out
+        if not self._quiet:
+            scripts_abs[k] = out
 
     def next_state(self, name):
         nm = name if isinstance(name, str) else name.name
-        log.append(["enter", int(nm[1:]), bool(self.is_executing), self._depth])
+        self._log.append(["enter", int(nm[1:]), bool(self.is_executing), self._depth])
         super(cls_holder[0], self).next_state(name)
 
     def done(self):
-        log.append(["done", bool(self.is_executing), self._depth])
+        self._log.append(["done", bool(self.is_executing), self._depth])
         super(cls_holder[0], self).done()
 
     cls_holder = [None]
     ns_base = {}
     ns_sub = {}
+    decoys = case.get("decoys") or {}
     for i in range(n):
-        (ns_base if i < case["split"] else ns_sub)[sname(i)] = make_fn(i)
+        if str(i) in decoys:
+            ns_base[sname(i)] = make_fn(i, decoys[str(i)])      # the base class's declaration: overridden below
+            ns_sub[sname(i)] = make_fn(i)
+        else:
+            (ns_base if i < case["split"] else ns_sub)[sname(i)] = make_fn(i)
     _uid[0] += 1
-    if case["split"] < n:
+    if ns_sub:
         B = type("GenBase%d" % _uid[0], (base,), ns_base)
         ns_sub.update(dict(_sm_call=_sm_call, next_state=next_state, done=done))
         C = type("Gen%d" % _uid[0], (B,), ns_sub)
@@ -229,18 +238,51 @@ def run_impl(case, tag="x"):
     log = []
     scripts_abs = {}
     C = build_class(case, sm_mod, log, clock, scripts_abs)
-    m = C()
-    m._k = 0
-    m._depth = 0
     import logging
-    m.logger = logging.getLogger("verif.sm")
-    m.logger.setLevel(logging.CRITICAL + 1)
+    lg = logging.getLogger("verif.sm")
+    lg.setLevel(logging.CRITICAL + 1)
+    nt = ntcore.NetworkTableInstance.getDefault()
+
+    def fresh(cls, quiet, lg_list, name):
+        o = cls()
+        o._k = 0
+        o._depth = 0
+        o._quiet = quiet
+        o._log = lg_list
+        o.logger = lg
+        setup_tunables(o, name, "components")
+        return o
     _uid[0] += 1
     cname = "sm%s_%d" % (tag, _uid[0])
-    setup_tunables(m, cname, "components")
-    nt = ntcore.NetworkTableInstance.getDefault()
+    for k, v in sorted((case.get("predur") or {}).items()):
+        # a value that is on the topic before the component is bound (dashboard, earlier run)
+        pub = nt.getDoubleTopic("/components/%s/state/%s_duration" % (cname, sname(int(k)))).publish()
+        pub.set(v / TPS)
+        _pubs.append(pub)
+    twin = case.get("twin")
+    m2 = None
+    if twin:
+        T = type("Twin%d" % _uid[0], (C,), {}) if twin.get("subclass") else C
+        m2 = fresh(T, True, [], cname + "_twin")
+    m = fresh(C, False, log, cname)
+    if twin and not twin.get("subclass") and len(twin["ops"]) % 2:
+        m2 = fresh(C, True, [], cname + "_twin2")      # ... or created after the machine under test
     obs = []
-    for op in case["hist"]:
+    for opi_, op in enumerate(case["hist"]):
+        if m2 is not None and opi_ < len(twin["ops"]):
+            keep = clock.t
+            for top in twin["ops"][opi_]:
+                try:
+                    if top[0] == "engage":
+                        m2.engage()
+                    elif top[0] == "done":
+                        m2.done()
+                    else:
+                        clock.t = top[1]
+                        m2.on_iteration(top[1] / TPS) if case["auto"] else m2.execute()
+                except Exception:       # noqa
+                    pass
+            clock.t = keep
         del log[:]
         err = None
         try:
@@ -364,7 +406,8 @@ def coq_oev(e):
 
 
 def coq_case(case, obs, scripts_abs):
-    durs = ["(%s, %s)" % (coq_nat(i), coq_Z(case["states"][str(i)]["dur"])) for i in range(case["n"])
+    pre = case.get("predur") or {}
+    durs = ["(%s, %s)" % (coq_nat(i), coq_Z(pre.get(str(i), case["states"][str(i)]["dur"]))) for i in range(case["n"])
             if case["states"][str(i)]["timed"]]
     # trim trailing empty scripts
     sa = list(scripts_abs)
@@ -644,6 +687,7 @@ def oracle_chain(case, obs):
         return []
     st = case["states"]
     dur = {int(k): v["dur"] for k, v in st.items()}
+    dur.update({int(k): v for k, v in (case.get("predur") or {}).items()})
     out = []
     cur = None
     origin = 0
@@ -671,10 +715,12 @@ def oracle_chain(case, obs):
             engaged = True
         tm = now - origin
         nss = tm
+        wrapped = False
         if ran and st[str(cur)]["timed"] and exp < tm:
             nxt = st[str(cur)]["next"]
             nss = exp
             if nxt is None:
+                wrapped = True
                 origin += exp
                 tm -= exp
                 nss = 0
@@ -699,6 +745,11 @@ def oracle_chain(case, obs):
             if g is not None and g != w:
                 out.append(("C02", "op %d %r: quiet continuously engaged chain: %s is %r, the duration grid requires %r "
                                    "(state s%d entered at machine time %d, expiry %d)" % (opi, op, nm, g, w, cur, entry, exp)))
+                if wrapped:
+                    msg = ("op %d %r: the last timed state expired while engage() is still called: the machine starts over at the first "
+                           "state s%d at the expiry instant, so %s must be %r, it is %r" % (opi, op, cur, nm, w, g))
+                    out.append(("C04", msg))
+                    out.append(("C03", msg))
                 return out
         requested = False
     return out
@@ -709,7 +760,7 @@ PROFILE = {
     "C01": dict(auto=0.1, profiles=["gapped", "lazy", "chaotic", "continuous"]),
     "C02": dict(auto=0.1, profiles=["continuous", "continuous", "chain", "chain", "gapped"]),
     "C03": dict(auto=0.2, profiles=["continuous", "gapped", "chaotic", "chain"]),
-    "C04": dict(auto=0.1, profiles=["chaotic", "lazy", "gapped", "continuous"]),
+    "C04": dict(auto=0.1, profiles=["chaotic", "lazy", "gapped", "continuous", "chain"]),
     "C13": dict(auto=1.0, profiles=["continuous"]),
 }
 
@@ -719,8 +770,53 @@ def gen_for(pid, r):
     auto = r.random() < pr["auto"]
     prof = r.choice(pr["profiles"])
     if prof == "chain":
-        return gen_chain(r)
-    return gen_case(r, auto=auto, profile=prof)
+        return decorate(gen_chain(r), r)
+    return decorate(gen_case(r, auto=auto, profile=prof), r)
+
+
+def decorate(case, r):
+    """Surroundings that must not matter (or matter in the documented way):
+    decoys   a base class declares some states too, as another kind (must_finish flipped, timed <-> plain, other duration /
+             next_state); the subclass's declaration is the one that counts;
+    predur   a <state>_duration value is already on the NetworkTables topic when the component is bound: it wins over the
+             decorator argument (which is only the default);
+    twin     a second machine of the same class (or of a subclass of it) is engaged and executed in between: each machine
+             has its own bookkeeping."""
+    n = case["n"]
+    st = case["states"]
+    if r.random() < 0.25:
+        cand = [i for i in range(n) if st[str(i)]["kind"] != "default"]
+        r.shuffle(cand)
+        decoys = {}
+        for i in cand[:r.choice([1, 1, 2])]:
+            real = st[str(i)]
+            d = dict(must=not real["must"])
+            if real["timed"] and r.random() < 0.5:
+                d.update(timed=False, dur=None, next=None)
+            else:
+                d.update(timed=True, dur=r.choice([0, 1, 2, 64]), next=r.choice([None, case["first"], i]))
+            decoys[str(i)] = d
+        case["decoys"] = decoys
+    timed = [i for i in range(n) if st[str(i)]["timed"]]
+    if timed and r.random() < 0.25:
+        case["predur"] = {str(i): r.choice([0, 1, 3, 5, 16, 40]) for i in timed if r.random() < 0.6}
+    if r.random() < 0.25:
+        tw = []
+        t = 0
+        for op in case["hist"]:
+            if op[0] in ("execute", "aiter"):
+                t = op[1]
+            ops = []
+            x = r.random()
+            if x < 0.45:
+                ops.append(["engage"])
+            if x < 0.6:
+                ops.append(["execute", t + r.choice([0, 0, 1, 2])])
+            elif x < 0.65:
+                ops.append(["done"])
+            tw.append(ops)
+        case["twin"] = {"subclass": r.random() < 0.4, "ops": tw}
+    return case
 
 
 def gen_chain(r):
